@@ -70,6 +70,9 @@ def build(term):
     if k == 'MT':
         m = M(T[term[1]])
         return {'==': m == term[3], '!=': m != term[3], '>': m > term[3], '<': m < term[3], '>=': m >= term[3], '<=': m <= term[3]}[term[2]]
+    if k == 'MTT':       # a sub-spec on BOTH sides of the comparison
+        a, b = M(T[term[1]]), M(T[term[3]])
+        return {'==': a == b, '!=': a != b, '>': a > b, '<': a < b, '>=': a >= b, '<=': a <= b}[term[2]]
     if k == 'Mbare':
         return M
     if k == 'MTbare':
@@ -117,7 +120,7 @@ def build_default(d):
 
 def can_op(term):
     """left operand supports & | ~ (M family or combinator)"""
-    return term[0] in ('M', 'Mr', 'MT', 'Mbare', 'and', 'or', 'not')
+    return term[0] in ('M', 'Mr', 'MT', 'MTT', 'Mbare', 'and', 'or', 'not')
 
 
 class Reject(Exception):
@@ -167,6 +170,14 @@ def ref(term, target, mode, log):
                 return target
             raise Reject('match')
         if compare(term[2], sub, term[3]):
+            return target
+        raise Reject('match')
+    if k == 'MTT':
+        try:
+            a, b = target[term[1]], target[term[3]]
+        except (KeyError, IndexError, TypeError):
+            raise Reject('glom')
+        if compare(term[2], a, b):
             return target
         raise Reject('match')
     if k == 'Mbare':
@@ -245,10 +256,11 @@ def ref(term, target, mode, log):
 def mk_target(name):
     if name == 'nan':
         return float('nan')      # unordered with every number: <= is NOT the negation of >
-    return {'m1': -1, 'z': 0, 'three': 3, 'five': 5, 'a': 'a', 'k3': {'k': 3}, 'k0': {'k': 0}, 'ka': {'k': 'a'}, 'nok': {'j': 1}}[name]
+    return {'m1': -1, 'z': 0, 'three': 3, 'five': 5, 'a': 'a', 'k3': {'k': 3}, 'k0': {'k': 0}, 'ka': {'k': 'a'}, 'nok': {'j': 1},
+            'kj': {'k': 3, 'j': 1}, 'jk': {'k': 1, 'j': 3}}[name]
 
 
-TARGETS = ['m1', 'z', 'three', 'five', 'a', 'k3', 'k0', 'ka', 'nok', 'nan']
+TARGETS = ['m1', 'z', 'three', 'five', 'a', 'k3', 'k0', 'ka', 'nok', 'nan', 'kj', 'jk']
 
 
 def ref_outcome(term, tname, mode):
@@ -269,7 +281,7 @@ def run_case(case):
     return check_one(mode, term, tname, full)
 
 
-ORDERS = {'forward': list(range(10)), 'reverse': list(range(9, -1, -1)), 'interleaved': [3, 0, 7, 2, 5, 1, 9, 4, 8, 6, 3, 0]}
+ORDERS = {'forward': list(range(12)), 'reverse': list(range(11, -1, -1)), 'interleaved': [3, 0, 7, 2, 11, 5, 1, 9, 10, 4, 8, 6, 3, 0]}
 
 
 def run_history(case):
@@ -304,7 +316,7 @@ def check_one(mode, term, tname, full):
     if want[0] == 'pass':
         if got != want:
             return R({'expected': 'passes with %r' % (want[1],), 'observed': repr(got), **where}, oc)
-        if want[1] == (type(target).__name__, repr(target)) and isinstance(target, dict) and not ident and term[0] in ('M', 'Mr', 'MT', 'Mbare', 'MTbare', 'not'):
+        if want[1] == (type(target).__name__, repr(target)) and isinstance(target, dict) and not ident and term[0] in ('M', 'Mr', 'MT', 'MTT', 'Mbare', 'MTbare', 'not'):
             return R({'expected': 'the target itself', 'observed': 'an equal copy', **where}, oc)
     elif want[0] == 'reject':
         if got[0] == 'pass':
@@ -338,6 +350,9 @@ def atoms(mode):
     for op in PYOPS:
         out.append(['MT', 'k', op, 3])
     out += [['MT', 'k', '>', 'a'], ['MT', 'zz', '>', 0], ['Mbare'], ['MTbare', 'k'], ['MTbare', 'zz']]
+    for op in PYOPS:
+        out.append(['MTT', 'k', op, 'j'])
+    out.append(['MTT', 'k', '==', 'k'])
     if mode == 'match':
         out += [['type', 'int'], ['type', 'str'], ['type', 'dict'], ['lit', 3], ['lit', 'a'],
                 ['pred', 'pos'], ['pred', 'raises'], ['pred', 'none'], ['pred', 'true']]
@@ -409,7 +424,7 @@ def gen_terms(mode, depth, K):
 
 
 def build_hashable(term):
-    return term[0] in ('M', 'Mr', 'MT', 'type', 'lit', 'pred')
+    return term[0] in ('M', 'Mr', 'MT', 'MTT', 'type', 'lit', 'pred')
 
 
 def gen_cases(tier):
@@ -426,6 +441,59 @@ def gen_cases(tier):
             seen.add(key)
             for t in TARGETS:
                 cases.append([mode, term, t])
+    return cases
+
+
+DERIVATIONS = {
+    'base & x': lambda b, x: b & x, 'base | x': lambda b, x: b | x, '~base': lambda b, x: ~b,
+    'x & base': lambda b, x: x & b, 'x | base': lambda b, x: x | b, 'base & x & x': lambda b, x: b & x & x,
+    '(base | x) | x': lambda b, x: (b | x) | x,
+}
+
+
+def run_derivation(case):
+    """building a NEW combinator from an existing one with & | ~ must leave the existing one exactly as it was"""
+    mode, base_term, x_term, dname = case
+    base = build(base_term)
+    before = repr(base)
+    n = 0
+    for tname in TARGETS:                       # use it first ...
+        r = check_one(mode, base_term, tname, Match(base) if mode == 'match' else base)
+        if r.viol is not None:
+            return r
+    try:
+        derived = DERIVATIONS[dname](base, build(x_term))
+    except TypeError:
+        return R(None, 'not-derivable', nontrivial=False)
+    if repr(base) != before:
+        return R({'expected': 'the operand is unchanged: %s' % before, 'observed': repr(base), 'derivation': dname, 'derived': repr(derived)}, 'operand-mutated')
+    for tname in TARGETS:                       # ... and again after something was derived from it
+        r = check_one(mode, base_term, tname, Match(base) if mode == 'match' else base)
+        n += r.steps
+        if r.viol is not None:
+            r.viol['history'] = 'after %s was built from it: %r' % (dname, derived)
+            return r
+    return R(None, dname, nontrivial=True, steps=n, tags={dname, base_term[0], mode})
+
+
+def gen_derivations(tier):
+    cases = []
+    for mode in ('auto', 'match'):
+        at = atoms(mode)
+        bases = [a for a in at if can_op(a)][::4]
+        for a, b in itertools.product(at[::5], repeat=2):
+            for ctor in ('and', 'or'):
+                bases.append([ctor, [a, b], None])
+                bases.append([ctor, [a, b], None, 'op'] if can_op(a) else [ctor, [a, b], {'lit': 'D'}])
+        for a in at[::5]:
+            bases.append(['not', a])
+        xs = [at[0], at[7], at[-1]]
+        for base in bases:
+            for x in xs:
+                if not can_op(x):
+                    continue
+                for dname in DERIVATIONS:
+                    cases.append([mode, base, x, dname])
     return cases
 
 
@@ -563,13 +631,17 @@ def subs(tier, only=None):
     out = [
         Sub('combinators', gen_cases(tier), run_case,
             rule='case = (mode auto|match, combinator term, target); terms enumerated level by level, deeper levels built from the first K '
-                 'terms per (constructor, outcome vector over the 9 targets)',
+                 'terms per (constructor, outcome vector over the 12 targets)',
             min_nontrivial=5000, min_outcomes=4,
             required_tags=['M', 'Mr', 'MT', 'Mbare', 'and', 'or', 'not', 'switch', 'auto', 'match']),
         Sub('reuse-histories', gen_histories(tier), run_history,
-            rule='case = (mode, combinator term, order): ONE spec object evaluated against all ten targets in forward and reverse order (every ordered pair of targets occurs; '
+            rule='case = (mode, combinator term, order): ONE spec object evaluated against all twelve targets in forward and reverse order (every ordered pair of targets occurs; '
                  'thorough: also an interleaved order with repeats); every call is compared with the reference for that target alone',
             min_nontrivial=5000, min_outcomes=6, required_tags=['switch', 'and', 'or', 'not', 'match', 'auto', 'reverse']),
+        Sub('operator-derivations', gen_derivations(tier), run_derivation,
+            rule='case = (mode, existing combinator, operand, derivation with & | ~ on either side): the existing object is evaluated on all targets, a new '
+                 'combinator is built from it, then it is evaluated again: same repr, same decisions',
+            min_nontrivial=2000, min_outcomes=5, required_tags=['base & x', 'base | x', 'and', 'or']),
         Sub('check', gen_check(tier), run_check,
             rule='case = (Check keyword combination, sub-spec T|k|missing, target)', min_nontrivial=500, min_outcomes=4,
             required_tags=['type', 'instance_of', 'value', 'validate', 'default']),
